@@ -564,6 +564,11 @@ def _cases(tier, rng):
 KNOWN_EMPTY = '[empty-nested-scheduler-in-requirement] '
 
 
+def hollow_obj(j):
+    """some entry or exit chain of j may end in a scheduler without any job (same rule as `hollow` on specifications)"""
+    return is_sched(j) and (not j.jobs or any(hollow_obj(x) for x in j.jobs))
+
+
 def run_stale(case):
     r = random.Random(case['seed'])
     top = build_tree(case['spec'])
@@ -587,7 +592,7 @@ def run_stale(case):
                 j.required.discard(gone)
         else:
             # (not behind a hollow nested scheduler: the known finding again)
-            solid = [j for j in s_.jobs if not is_sched(j) or atoms_under(j)]
+            solid = [j for j in s_.jobs if not hollow_obj(j)]
             if solid:
                 new = DJ('late%d' % r.randrange(10 ** 6), label='late')
                 new.requires(r.choice(sorted(solid, key=lambda j: j._bt)))
